@@ -641,7 +641,7 @@ func OptionalHooksGuarded(c *Check, id string, rel string) {
 				continue
 			}
 			n++
-			home := cl.Parent()
+			home := HomeFn(cl.Parent())
 			_, nonNil := NilEdges(home, func(v ssa.Value) bool { return AllOrigins(v, IsFieldLoad(F)) })
 			c.Report(len(nonNil) > 0 && GuardedBy(home, cl, nonNil), id, "OPTIONAL-HOOK-CALLED-ONLY-IF-SET", home, cl.Pos(), "call of "+F.Name(), "the optional hook is called only behind the edge on which it was found to be set (unset it is nil: the call would panic; with the test negated a configured hook never runs)")
 		}
@@ -698,7 +698,7 @@ func OptionalHooksGuarded(c *Check, id string, rel string) {
 			if F == nil || F.Pkg() != sp.Pkg || !F.Exported() || !cfgField[F] || seenF[F] || len(Origins(cl.Common().Value)) != 1 {
 				continue
 			}
-			home := cl.Parent()
+			home := HomeFn(cl.Parent())
 			_, nonNil := NilEdges(home, func(v ssa.Value) bool { return AllOrigins(v, IsFieldLoad(F)) })
 			if len(nonNil) > 0 && GuardedBy(home, cl, nonNil) {
 				continue
